@@ -146,8 +146,8 @@ theorem whole_messageGetFd (env : PEnv) (ms : MsgSt) (part : Option Msg) (dobody
         have fr3 := fr2.step (.close fd) r2 rfl (by intro _ h; cases h; exact hfd') (fun _ _ _ => trivial)
         exact ⟨fr3, fr3, by intro _ h; cases h⟩
 
-theorem whole_execP (fdin : Option Handle) {w0 w : World} (fr : Fr1 (NewS w0) w0 w) :
-    wp (WholeFrI w0) (execP fdin) (fun _ w' => Fr1 (NewS w0) w0 w') w := by
+theorem whole_execP (argv : List Bytes) (fdin : Option Handle) {w0 w : World} (fr : Fr1 (NewS w0) w0 w) :
+    wp (WholeFrI w0) (execP argv fdin) (fun _ w' => Fr1 (NewS w0) w0 w') w := by
   unfold execP
   simp only [bind_eq, pure_eq, call_bind]
   refine wp_bind_mono (R := fun dn w' => Fr1 (NewS w0) w0 w' ∧ ∀ h, dn = some (some h) → w0.handles.length ≤ h) ?_ ?_
@@ -167,7 +167,7 @@ theorem whole_execP (fdin : Option Handle) {w0 w : World} (fr : Fr1 (NewS w0) w0
     | some devnull =>
       dsimp only
       refine wp_call_any fun r => ?_
-      have fr2 := fr1.step .fork r rfl (by intro _ h; cases h) (fun _ _ _ => trivial)
+      have fr2 := fr1.step (.fork argv (childStdin fdin devnull)) r rfl (by intro _ h; cases h) (fun _ _ _ => trivial)
       refine ⟨fr2, ?_⟩
       refine wp_bind_mono (R := fun _ w' => Fr1 (NewS w0) w0 w') ?_ ?_
       · split
@@ -204,7 +204,7 @@ theorem whole_execOne_exec (env : PEnv) (mh : Match) (st : ExecSt) (hty : mh.ty 
     | none => exact ⟨fr1, rfl⟩
     | some fd =>
       dsimp only
-      refine wp_bind_mono (whole_execP fd fr1) ?_
+      refine wp_bind_mono (whole_execP _ fd fr1) ?_
       intro rc w2 fr2
       cases fd with
       | none => exact ⟨fr2, rfl⟩
